@@ -46,6 +46,11 @@ fn fresh_name(r: &mut Rng, used: &mut BTreeSet<String>) -> String {
         if r.chance(30) || used.contains(&n) {
             n.push_str(&r.below(100).to_string());
         }
+        // now and then a character that modified UTF-8 (class files) and UTF-8 (tables, mappings) spell differently
+        // (missed seeded change C14-15: old names searched in the class bytes in their UTF-8 spelling)
+        if r.chance(6) && !simple_of(&n).starts_with("C_") {
+            n.push_str(*r.pick(&["\u{e9}", "\u{20ac}", "\u{1d538}", "\u{1f600}"]));
+        }
         if used.insert(n.clone()) {
             return n;
         }
